@@ -38,13 +38,14 @@ CHECKS = {
     "C15": {"units": [rapid("freex", "TestC15Free", 1000, 800, 16), rapid("ccontx", "TestC15", 10000, 80000)]},
     "C16": {"units": [rapid("freex", "TestC16Free", 1500, 800, 16), rapid("promisex", "TestC16", 10000, 80000)]},
     "C17": {"units": [rapid("ccallx", "TestC17", 20000, 150000)]},
-    "C18": {"units": [rapid("freex", "TestC18Free", 1000, 600, 16), rapid("concx", "TestC18", 8000, 60000)]},
+    "C18": {"units": [rapid("freex", "TestC18Free", 500, 400, 16), rapid("concx", "TestC18", 8000, 60000)]},
     "C19": {"units": [
         rapid("codecx", "TestC19Pad", 20000, 60000, 4),
         rapid("codecx", "TestC19Unpad", 20000, 60000, 4),
         rapid("codecx", "TestC19Prefix", 20000, 60000, 4),
         rapid("codecx", "TestC19Prng", 20000, 60000, 4),
         rapid("codecx", "TestC19PrngPar", 150, 150, 4),
+        rapid("codecx", "TestC19PrefixPar", 150, 150, 4),
         fuzz("codecx", "FuzzC19Unpad", 30),
         fuzz("codecx", "FuzzC19Pad", 30),
         fuzz("codecx", "FuzzC19Prefix", 30),
@@ -54,6 +55,7 @@ CHECKS = {
         rapid("seqiox", "TestC20Seek", 10000, 60000, 4),
         rapid("seqiox", "TestC20Sizer", 10000, 60000, 4),
         rapid("seqiox", "TestC20Closer", 10000, 60000, 4),
+        rapid("seqiox", "TestC20CloserPar", 1500, 3000, 8),
         rapid("seqiox", "TestC20Unique", 10000, 60000, 4),
         rapid("seqiox", "TestC20Proxy", 5000, 30000, 8),
     ]},
